@@ -4,7 +4,7 @@ from .C02 import split, ob_ltf, ob_vec, ob_new, encoded_functions as _enc
 
 PROPERTY = "C04"
 META = {
-    "bounds": {"quick": "monotonicity: two consecutive iterations from an arbitrary state (ltf/lpsd), adjacent entries of the lookup maps (vectorised); unclamped-regime clauses, K formula, even spread: one iteration from an arbitrary state, N unbounded (start spread: generic k / generic-element array; literal unrolling N<=12); reported overlap: bins with 1..4 symbolic starts; forced bin count: find_Jdes_binary_search executed in fork mode over ALL return patterns of an uninterpreted scheduler with MIN_JDES..MAX_JDES shrunk to 8 values",
+    "bounds": {"quick": "monotonicity (ltf/lpsd): the step map state -> (L,K) is monotone, two independent copies of ONE iteration from arbitrary states fi<=fi2, N unbounded, proved as a chain of three links cut at the two rounding statements (each link for arbitrary values of the quantity crossing the cut); vectorised: adjacent entries of the lookup maps, same three-link chain; unclamped-regime clauses, K formula, even spread: one iteration from an arbitrary state, N unbounded (start spread: generic k / generic-element array; literal unrolling N<=12); reported overlap: bins with 1..4 symbolic starts; forced bin count: find_Jdes_binary_search executed in fork mode over ALL return patterns of an uninterpreted scheduler with MIN_JDES..MAX_JDES shrunk to 8 values",
                "thorough": "unrolling N<=24, search range 32 values"},
     "outside": ["'the vectorised scheduler produces the same number of bins as the iterative one to within 10%' (whole-plan property over a transcendental grid: not encodable as a bounded query)", "IEEE ties", SC.POW_FACTS],
     "stubs": ["(N/2)**(1/Jdes) uninterpreted with facts", "scheduler called by the Jdes search -> uninterpreted nf(Jdes)", "MIN_JDES/MAX_JDES overridden (the search logic does not depend on the range)"],
@@ -16,6 +16,14 @@ G = [["C04/K<=N-L+1", "C04/K=nearest*"], ["C04/even-spread"], ["C04/O=*"]]
 def encoded_functions():
     import speckit.utils as U, speckit.analysis as A
     return _enc() + [U.find_Jdes_binary_search, U.round_half_up]
+
+
+def ob_mono_chain(W, sched, seg, split=None):
+    return SC.ob_mono_chain(W, sched, seg, split)
+
+
+def ob_mono_chain_vec(W, seg):
+    return SC.ob_mono_chain_vec(W, seg)
 
 
 def ob_overlap(W, Kn):
@@ -37,11 +45,16 @@ def obligations(tier):
     for sched in ("ltf", "lpsd"):
         split(obs, "%s/seg-N%d" % (sched, b), "ob_ltf", {"sched": sched, "part": "seg", "bound": b}, G[:2], timeout=60 if tier == "quick" else 900, weight=10)
         split(obs, "%s/seg-generic" % sched, "ob_ltf", {"sched": sched, "part": "seg-generic"}, G[1:2], timeout=to)
+        # monotonicity of L and K along a plan: the step map is monotone in the state, proved as a chain cut at the two rounding statements
+        for seg in ("A", "B", "C"):
+            obs.append({"name": "%s/monotone/%s" % (sched, seg), "fn": "ob_mono_chain", "params": {"sched": sched, "seg": seg}, "timeout": to, "weight": 4})
         if tier == "thorough":
             obs.append({"name": "%s/twostep" % sched, "fn": "ob_ltf", "params": {"sched": sched, "part": "twostep"}, "timeout": 600, "weight": 8})
         obs.append({"name": "%s/regime" % sched, "fn": "ob_ltf", "params": {"sched": sched, "part": "regime"}, "timeout": to, "weight": 4})
         obs.append({"name": "%s/regime-after-prior-plan" % sched, "fn": "ob_ltf", "params": {"sched": sched, "part": "regime", "prior": True}, "timeout": to, "weight": 4, "fork": True, "max_paths": 32})
     split(obs, "vec/step", "ob_vec", {"part": "step"}, G, timeout=to, weight=5)
+    for seg in ("A", "B", "C"):
+        obs.append({"name": "vec/monotone/%s" % seg, "fn": "ob_mono_chain_vec", "params": {"seg": seg}, "timeout": to, "weight": 4})
     if tier == "thorough":
         obs.append({"name": "vec/twostep", "fn": "ob_vec", "params": {"part": "twostep"}, "timeout": 600, "weight": 8})
     obs.append({"name": "vec/regime", "fn": "ob_vec", "params": {"part": "regime"}, "timeout": to, "weight": 4})
